@@ -294,7 +294,8 @@ func init() {
 		ID: "C14", Level: "translation_validation", Extra: regoC14,
 		Rule: "gosym: one state = one flattened graph with a nondeterministic lexical layout through the real Index; regosym: one program evaluated on a symbolic graph whose @lexical entries (range text from a boundary pool, uri) are solver-chosen per node",
 		Harnesses: func(tier string) []HarnessSpec {
-			return []HarnessSpec{{Pkg: "internal/validator", Fn: "VerifC14Index", Reach: []string{"indexed"}, Bounds: map[string]any{"domain_nodes": 3, "lexical_entries": "0..3, element = any node or a property IRI", "source_information": "absent | present with 0..2 additional locations listing any subset of the nodes"}}}
+			return []HarnessSpec{{Pkg: "internal/validator", Fn: "VerifC14Index", Reach: []string{"indexed"}, Bounds: map[string]any{"domain_nodes": 3, "lexical_entries": "0..3, element = any node or a property IRI", "source_information": "absent | present with 0..2 additional locations listing any subset of the nodes"}},
+				{Pkg: "internal/validator", Fn: "VerifC14RangeLayout", Reach: []string{"indexed"}, Bounds: map[string]any{"range_text_layouts": "12 textual layouts of the four numbers (compact, blanks, no brackets, leading zeros, surrounding text, large magnitudes)", "container": "single object | one-element array"}}}
 		},
 		Assumptions: []string{
 			"gosym part: the flattened graph is given in the JSON-LD processor's output form (containers single-or-array)",
